@@ -1427,6 +1427,10 @@ class OptionStore:
                 # to keep the old options. If they are not valid keep the new
                 # defaults but warn.
                 self.options[key] = value
+                # The options that yield to the old object yield to the new one.
+                for child in self.options.values():
+                    if child.parent is oldval:
+                        child.parent = value
                 try:
                     value.set_value(oldval.value)
                 except MesonException:
